@@ -177,7 +177,7 @@ func (s *vfSess) fail(sig, format string, a ...any) {
 
 func vfParStr(e *vfEnd) string {
 	if e.real {
-		return "(real)"
+		return fmt.Sprintf("(real, padding draws steered to %v)", e.force)
 	}
 	p := e.par
 	return fmt.Sprintf("{init=%v priv=%x.. alt=%v pad1=%d pad2=%d omitMagic=%v flip=%d}", p.Initiator, p.Priv[:4], p.SendAlt, p.Pad1, p.Pad2, p.OmitMagic, p.MagicFlipBit)
